@@ -12,7 +12,8 @@
 (* plus the status sweep: every status 400..599 as the own status of a     *)
 (* no-code and of a custom-code error; and listings whose backend yields    *)
 (* 1 or 2 items and THEN the error, with page sizes 1, 2 and the default;   *)
-(* and size classes: messages of 1900..6000 bytes, details of 1..90 digests *)
+(* and size classes: messages of 1900..6000 bytes, details of 1..90 digests; *)
+(* and writer carriers: the backend's BlobWriter fails (kind WRITER).       *)
 (* A behaviour is one case: Init picks it, each step is one hop.           *)
 (*                                                                         *)
 (* Two modes, both swept inside one TLC run (Init chooses):                *)
@@ -89,6 +90,15 @@ ListTrees == {Std(c) : c \in StdCodes} \cup {Plain(<<B("b1")>>), New("CUSTOM_COD
 ListShapes == {<<n, p>> : n \in {1, 2}, p \in {0, 1, 2}}
 EffPage(p) == IF p = 0 THEN 1000 ELSE p
 
+\* Writer carriers (kind "WRITER": the error is raised by the backend's BlobWriter in Write, Close or
+\* Commit and travels back through PUT / PATCH responses): standard codes, a custom code, a case
+\* variant, the empty code and no code; bare, under %w, and under HTTP wrappers with own statuses.
+WriterLeaves == {Std(c) : c \in {"DENIED", "BLOB_UPLOAD_UNKNOWN", "RANGE_INVALID", "SIZE_INVALID"}}
+                \cup {New(c, <<B("b1")>>, "d1") : c \in {"DIGEST_INVALID", "CUSTOM_CODE", "denied", ""}}
+                \cup {Plain(<<B("b1")>>), Plain(<<E>>)}
+WriterDomain == WriterLeaves \cup {Fmt(<<B("b2")>>, <<x>>) : x \in WriterLeaves}
+                \cup {Http(s, <<x>>) : x \in WriterLeaves, s \in {400, 413, 416, 507}}
+
 VARIABLES mode, t0, kind, k, cur, nitems, page
 vars == <<mode, t0, kind, k, cur, nitems, page>>
 Impl416 == mode = "impl"
@@ -97,6 +107,7 @@ TrimExact == mode = "design"
 Init == /\ mode \in Modes /\ k = 0
         /\ \/ t0 \in FullDomain /\ kind \in Kinds /\ nitems = 0 /\ page = 0
            \/ t0 \in ListTrees /\ kind = "LIST" /\ \E sh \in ListShapes : nitems = sh[1] /\ page = sh[2]
+           \/ t0 \in WriterDomain /\ kind = "WRITER" /\ nitems = 0 /\ page = 0
         /\ cur = t0
 Next == k < MaxHops /\ k' = k + 1 /\ cur' = Hop(cur, kind, TrimExact) /\ UNCHANGED <<mode, t0, kind, nitems, page>>
 Spec == Init /\ [][Next]_vars
